@@ -3973,8 +3973,9 @@ class ProfilingDataset(Dataset):
 
     def __iter__(self, with_key=False):
         if with_key:
-            raise _ItemsNotDefined(self.__class__.__name__)
-        it = iter(self.input_dataset)
+            it = self.input_dataset.__iter__(with_key=True)
+        else:
+            it = iter(self.input_dataset)
         while True:
             start = self.timestamp()
             self.hit_count[0] += 1
@@ -3983,6 +3984,9 @@ class ProfilingDataset(Dataset):
             except StopIteration:
                 self.hit_count[0] -= 1
                 return
+            except _ItemsNotDefined:
+                self.hit_count[0] -= 1
+                raise
             except Exception:
                 self.hit_count[1] += 1
                 raise
